@@ -97,6 +97,21 @@ func hostileAgg(r R, i int) *gripql.Aggregate {
 }
 
 func hostileStep(r R, g *model.GraphData) *gripql.GraphStatement {
+	return hostileStepK(r, g, r.Intn(hostileKinds))
+}
+
+const hostileKinds = 40
+
+// themes: step kinds that interact (swarm testing: a program drawn from a few
+// kinds reaches their combinations far more often than a uniform draw over 40)
+var hostileThemes = [][]int{
+	{8, 9, 10, 11, 17, 17, 18, 19, 21, 22, 23, 24, 2, 5, 26, 25}, // null travelers, marks, projections
+	{31, 31, 31, 12, 26, 25, 27, 8, 17},                           // aggregations
+	{34, 35, 35, 32, 33, 12, 2, 17, 18},                           // loops and counters
+	{12, 13, 14, 15, 16, 37, 36, 0, 1},                            // filters and starts
+}
+
+func hostileStepK(r R, g *model.GraphData, kind int) *gripql.GraphStatement {
 	ls := func() []string {
 		switch r.Intn(4) {
 		case 0:
@@ -106,7 +121,7 @@ func hostileStep(r R, g *model.GraphData) *gripql.GraphStatement {
 		}
 		return []string{pick(r, ELabels), "nolabel"}
 	}
-	switch r.Intn(40) {
+	switch kind {
 	case 0:
 		return V(vids(g, r, 2)...)
 	case 1:
@@ -140,9 +155,9 @@ func hostileStep(r R, g *model.GraphData) *gripql.GraphStatement {
 	case 16:
 		return HasKey(pick(r, hostileKeys))
 	case 17:
-		return As(pick(r, []string{"m0", "m1", "", "$x", "_gid", "__current__", "a b"}))
+		return As(pick(r, []string{"m0", "m0", "m0", "m0", "m1", "m1", "", "$x", "_gid", "__current__", "a b"}))
 	case 18:
-		return Select(pick(r, []string{"m0", "nomark", ""}))
+		return Select(pick(r, []string{"m0", "m0", "m1", "nomark", ""}))
 	case 19:
 		return Select("m0", pick(r, []string{"m1", "nomark"}))
 	case 20:
@@ -213,8 +228,23 @@ func HostileProgram(r R, g *model.GraphData) []*gripql.GraphStatement {
 		if r.Chance(80) {
 			p = append(p, V())
 		}
+		var kinds []int
+		switch k := r.Intn(10); {
+		case k < 4:
+			kinds = hostileThemes[r.Intn(len(hostileThemes))]
+			n = 1 + r.Intn(6)
+		case k < 7:
+			for i := 0; i < 3+r.Intn(4); i++ {
+				kinds = append(kinds, r.Intn(hostileKinds))
+			}
+			n = 1 + r.Intn(6)
+		}
 		for i := 0; i < n; i++ {
-			p = append(p, hostileStep(r, g))
+			if kinds != nil {
+				p = append(p, hostileStepK(r, g, kinds[r.Intn(len(kinds))]))
+			} else {
+				p = append(p, hostileStep(r, g))
+			}
 		}
 	}
 	// loops must stay finite: a jump is only kept when a counter bounds it
@@ -223,6 +253,88 @@ func HostileProgram(r R, g *model.GraphData) []*gripql.GraphStatement {
 		if _, ok := s.Statement.(*gripql.GraphStatement_Jump); ok {
 			hasJump = true
 		}
+	}
+	if hasJump {
+		p = append(p, Limit(5))
+	}
+	return p
+}
+
+// HostileCombo draws a short program of the form
+//
+//	start [as(m0)] state-changer step step [step]
+//
+// where the state changer leaves the traveler in one of the unusual states
+// (no current element, a rendered value, a count, a path, an aggregation, a
+// selection, an unwound or projected element) and the following steps are
+// drawn from one theme. The space is small enough for a run to meet the same
+// (state, step, step) combination with several argument choices.
+func HostileCombo(r R, g *model.GraphData) []*gripql.GraphStatement {
+	var p []*gripql.GraphStatement
+	if r.Chance(80) {
+		p = append(p, V())
+	} else {
+		p = append(p, E())
+	}
+	marked := false
+	if r.Chance(50) {
+		p = append(p, As("m0"))
+		marked = true
+	}
+	nl := func() []string {
+		if r.Chance(60) {
+			return []string{"nolabel"}
+		}
+		return nil
+	}
+	switch r.Intn(16) {
+	case 0:
+		p = append(p, OutNull(nl()...))
+	case 1:
+		p = append(p, InNull(nl()...))
+	case 2:
+		p = append(p, OutENull(nl()...))
+	case 3:
+		p = append(p, InENull(nl()...))
+	case 4:
+		p = append(p, Render(map[string]interface{}{"a": pick(r, hostileKeys)}))
+	case 5:
+		p = append(p, Count())
+	case 6:
+		p = append(p, Path())
+	case 7:
+		p = append(p, Aggregate(hostileAgg(r, 0)))
+	case 8:
+		p = append(p, Fields(pick(r, hostileKeys)))
+	case 9:
+		if marked {
+			p = append(p, Select("m0"))
+		} else {
+			p = append(p, As("m0"), Out(), Select("m0"))
+		}
+	case 10:
+		p = append(p, Unwind(pick(r, hostileKeys)))
+	case 11:
+		p = append(p, Distinct(pick(r, hostileKeys)))
+	case 12:
+		p = append(p, OutE())
+	case 13:
+		p = append(p, Out())
+	case 14:
+		p = append(p, OutNull(nl()...), As("m1"))
+	}
+	kinds := hostileThemes[0]
+	if r.Chance(40) {
+		kinds = hostileThemes[r.Intn(len(hostileThemes))]
+	}
+	n := 2 + r.Intn(2)
+	hasJump := false
+	for i := 0; i < n; i++ {
+		s := hostileStepK(r, g, kinds[r.Intn(len(kinds))])
+		if _, ok := s.Statement.(*gripql.GraphStatement_Jump); ok {
+			hasJump = true
+		}
+		p = append(p, s)
 	}
 	if hasJump {
 		p = append(p, Limit(5))
